@@ -6,8 +6,9 @@
    The Avalon word is ONE byte (byteenable = one bit); base address 0; burst_increment 1; 9-bit counters wrap.
    Inputs  i = [rd, wr, a, bc, be, d, cmd_ready, wdata_ready, rdata_valid, rdata].
    Outputs o = [wait, rdv, q, cv, cwe, ca, clast, wv, wd, ww, rr].
-   VAR = "code" models the code as read; VAR = "gapfix" models the proposed repair (a write burst only ends once all
-   its beats were accepted); other values seed defects for the negative controls. *)
+   VAR = "code" models the code as read; VAR = "gapfix" models the proposed repair (/verif/.work/c11_fix.diff: a write burst
+   ends once all its beats were accepted and both FIFOs are empty; port.cmd.valid is no longer gated by the data FIFO level;
+   the last command of a read burst carries cmd.last); other values seed defects for the negative controls. *)
 EXTENDS Integers, Sequences, FiniteSets
 
 AInit == [fsm |-> "START", burst_count |-> 0, address |-> 0, byteenable |-> 0, writedata |-> 0,
@@ -29,13 +30,14 @@ AComb(MB, r, i, VAR) ==
     [] r.fsm = "SINGLE_WRITE" -> [AvZ EXCEPT !.wv = 1, !.wd = r.writedata, !.ww = r.byteenable]
     [] r.fsm = "SINGLE_READ" -> IF i.rdata_valid = 1 THEN [AvZ EXCEPT !.rr = 1, !.rdv = 1, !.q = i.rdata] ELSE [AvZ EXCEPT !.rr = 1]
     [] r.fsm = "BURST_WRITE" ->
-         LET cvv == IF r.cf # <<>> /\ r.wf # <<>> THEN 1 ELSE 0 IN
+         LET cvv == IF r.cf # <<>> /\ (r.wf # <<>> \/ VAR = "gapfix") THEN 1 ELSE 0 IN
          [AvZ EXCEPT !.wait = AvWait(MB, r, i, VAR),
                      !.cv = cvv, !.cwe = cvv, !.ca = IF r.cf # <<>> THEN Head(r.cf) ELSE 0,
                      !.wv = IF r.wf # <<>> THEN 1 ELSE 0,
                      !.wd = IF r.wf # <<>> THEN Head(r.wf)[1] ELSE 0, !.ww = IF r.wf # <<>> THEN Head(r.wf)[2] ELSE 0]
     [] r.fsm = "BURST_READ" ->
-         [AvZ EXCEPT !.cv = 1 - r.seen, !.cwe = 0, !.ca = r.address, !.rr = 1, !.rdv = i.rdata_valid, !.q = i.rdata]
+         [AvZ EXCEPT !.cv = 1 - r.seen, !.cwe = 0, !.ca = r.address, !.rr = 1, !.rdv = i.rdata_valid, !.q = i.rdata,
+                     !.clast = IF VAR = "gapfix" /\ r.crc = 1 THEN 1 ELSE 0]
 
 ANext(MB, r, i, VAR) ==
   CASE r.fsm = "START" ->
@@ -56,8 +58,8 @@ ANext(MB, r, i, VAR) ==
              popw == r.wf # <<>> /\ i.wdata_ready = 1
              cf1 == (IF popc THEN Tail(r.cf) ELSE r.cf) \o (IF push THEN <<r.address>> ELSE <<>>)
              wf1 == (IF popw THEN Tail(r.wf) ELSE r.wf) \o (IF push /\ Len(r.wf) < MB THEN <<<<i.d, i.be>>>> ELSE <<>>)
-             done == ~AvInBurst(r, i) /\ Len(r.cf) = 0 /\ Len(r.wf) = 1 /\ i.wdata_ready = 1
-                     /\ (VAR # "gapfix" \/ r.burst_count = 0)
+             done == IF VAR = "gapfix" THEN ~AvInBurst(r, i) /\ r.burst_count = 0 /\ Len(r.cf) = 0 /\ Len(r.wf) = 0
+                     ELSE ~AvInBurst(r, i) /\ Len(r.cf) = 0 /\ Len(r.wf) = 1 /\ i.wdata_ready = 1
          IN [r EXCEPT !.cf = cf1, !.wf = wf1,
                       !.burst_count = IF AvInBurst(r, i) /\ push THEN r.burst_count - 1 ELSE r.burst_count,
                       !.address = IF AvInBurst(r, i) /\ push /\ VAR # "no_increment" THEN r.address + 1 ELSE r.address,
